@@ -246,6 +246,9 @@ func (C06) OnCall(e *sim.Env, c *sim.Call) {
 				e.Violate("C06", "payout-amount", fmt.Sprintf("validator %s removed with stake %v but account moved by %v", a, pv.Tokens, d), c)
 			}
 			e.Count("c06.payouts")
+			if c.Time.Equal(pv.Unstaking) {
+				e.Count("c06.payout_exactly_at_completion")
+			}
 		case s1 == 0:
 			if c.Kind != "begin" {
 				bad("forced unstake outside BeginBlock")
@@ -364,6 +367,9 @@ func (m *C09) OnCall(e *sim.Env, c *sim.Call) {
 			a := hexs(msg.ValidatorAddr)
 			cp := sim.ParamsOf(pre)
 			e.Count("c09.unjail_success")
+			if s := pre.Sign[a]; s != nil && c.Time.Equal(s.JailedUntil) {
+				e.Count("c09.unjail_exactly_at_jailed_until")
+			}
 			v, found := pre.Vals[a]
 			si := pre.Sign[a]
 			switch {
@@ -391,8 +397,17 @@ func (m *C09) OnCall(e *sim.Env, c *sim.Call) {
 			e.Count("c09.unjail_refused")
 		}
 	} else if c.Kind == "deliver" && c.Meta.Decoded {
-		if _, isUnjail := c.Meta.Tx.Msg.(posTypes.MsgUnjail); isUnjail {
+		if msg, isUnjail := c.Meta.Tx.Msg.(posTypes.MsgUnjail); isUnjail {
 			e.Count("c09.unjail_refused")
+			a := hexs(msg.ValidatorAddr)
+			if v, ok := pre.Vals[a]; ok && v.Jailed {
+				if s := pre.Sign[a]; s != nil && !s.Tombstoned && c.Time.Before(s.JailedUntil) {
+					e.Count("c09.unjail_refused_too_early")
+					if s.JailedUntil.Sub(c.Time) <= 1e9 {
+						e.Count("c09.unjail_refused_one_second_early")
+					}
+				}
+			}
 		}
 	}
 	// jailed flag may only clear through a successful unjail of that validator
